@@ -375,10 +375,12 @@ def run_history(it, f, name, ops, report, rule, key):
     return True
 
 
-def c01_stream(report, cfg, lengths):
+def c01_stream(report, cfg, lengths, only=None):
     f = facts.load(cfg)
     for name in ALIASES:
-        key = "%s keystream from position 0@%s" % (name, cfg)
+        if only and name not in only:
+            continue
+        key = "%s keystream from position 0 lengths %s@%s" % (name, "/".join(map(str, lengths)), cfg)
 
         def go():
             ok = True
